@@ -27,7 +27,11 @@ for nm in names:
     if a.returncode != 0:
       res = {"apply": "failed: " + a.stderr[:200]}
     else:
+      arrival = v1.get(nm) or {}
       for p in [pid] + EXTRA.get(pid, []):
+        # neighbouring checks are run when the own check misses, or when they are on record as having caught this seed
+        if p != pid and res.get(pid, {}).get("exit") == 1 and not arrival.get(p):
+          continue
         env = dict(os.environ, VERIF_REPO=wt, VERIF_SEED="0", VERIF_JOBS=os.environ.get("VERIF_JOBS", "8"))
         r = subprocess.run(["/venv/bin/python", "-m", "mlsim.check", p, "--tier", "quick", "--no-evidence", "--no-selftest", "--no-shrink", "--first"],
                            cwd=V, env=env, capture_output=True, text=True, timeout=3000)
